@@ -87,6 +87,7 @@ def generate(tier, rng):
         c = {"fam": "resolve", "tree": t, "names": names, "sep": sep, "queries": [], "unique": unique, "typed": rc.typed_labels(rng, names),
              "cls": rng.choice([None, None, "len", "falsy", "eq"])}
         labs = gen.tree_labels(t)
+        c["reuse"] = rng.random() < 0.3
         stress = rng.random() < 0.15
         nq = 30 if stress else 8
         for i in range(nq):
@@ -124,6 +125,8 @@ def _sibling_unique(case, ic):
 
 
 def judge(case, impl, drv):
+    if isinstance(impl, dict) and impl.get("skip"):
+        return True, True
     if not isinstance(impl, list):
         return False, False
     p_ok = c_ok = True
